@@ -737,7 +737,7 @@ def native(tier, seed, bdir, only=None):
         else:
             rc, o, e, secs = sh([exe, str(seed), "1" if tier == "thorough" else "0", "0", "1"], 3600)
             rec = {"unit": uid, "route": "B", "kind": "native (exhaustive on 4 points over {1,2,3}, sampled on 5-6 points)", "status": "ok", "cases": 0, "failures": [], "seconds": round(secs, 2),
-                   "bound": "every symmetric dissimilarity on <= 4 points with entries in {1,2,3}; sampled ones on 5 and 6 points; 4 Euclidean clouds; thresholds none / each distance / half the smallest; dim_max 0..n-2; moduli 2, 3; forms full, lower, upper, sparse, Euclidean",
+                   "bound": "every symmetric dissimilarity on <= 4 points with entries in {1,2,3} and on 4 points with entries in {0,1,2}; sampled ones on 5 and 6 points; 6 Euclidean clouds (incl. the 8-point cross-polytope of R^4); thresholds none / each distance / half the smallest; dim_max 0..n-2; moduli 2, 3; forms full, lower, upper, sparse, Euclidean",
                    "desc": "the headline clause of C11, which no contract reaches: intervals streamed by ripser_auto (zero-length dropped) == barcode of the Rips flag filtration through Rips_complex + Simplex_tree + Persistent_cohomology"}
             try:
                 js = json.loads(o.strip().split("\n")[-1])
